@@ -203,9 +203,18 @@ func exec(c *hx.Ctx, line string) string {
 			case opI16, opI32, opI64, opV7:
 				o = "ok:" + strconv.FormatInt(res.ival, 10)
 			case opBytes:
-				o = "ok:" + hexOf(res.data)
+				if len(res.data) > len(input) {
+					// more bytes than the whole input holds: never correct; not printed (can be gigabytes)
+					o = fmt.Sprintf("ok:oversize%d", len(res.data))
+				} else {
+					o = "ok:" + hexOf(res.data)
+				}
 			case opStr:
-				o = "ok:" + hexOf([]byte(res.sval))
+				if len(res.sval) > len(input) {
+					o = fmt.Sprintf("ok:oversize%d", len(res.sval))
+				} else {
+					o = "ok:" + hexOf([]byte(res.sval))
+				}
 			case opRaw:
 				if res.count < 0 || res.count > len(buf) {
 					o = fmt.Sprintf("ok:badcount%d", res.count)
